@@ -67,6 +67,28 @@ CHECKS = {
         note="trusts mc/ref.py (about 900 lines, self-tested against struct for floats) and CPython's codecs for the codec step; "
              "reject kinds compared coarsely; NaN payloads not compared",
         design="§2.2, §3 C03"),
+    "C01": dict(
+        technique="bounded-exhaustive enumeration of typed construct terms x value domains, executing build then parse on the real code; structural expected-value oracle",
+        text="Every strict-typed term of tiers T1-T4 (T5 in thorough; about 7000 compositions up to depth 3, every primitive "
+             "parameterisation) is built from every value of its finite value domain (boundary integers of every width/sign/endianness, "
+             "float bit patterns, strings per encoding, every label spelling, lists and member products; for context-dependent shapes "
+             "every value read from an accepted byte string, also with each derived member omitted) and the bytes are parsed back: the "
+             "result must match the expected value with derived members (Const, Rebuild, Default, Computed) filled in and the whole "
+             "encoding consumed.",
+        note="expected values come from mc/gen.py:values(); mc/ref.py is used only as a domain filter for representational gaps of a "
+             "composition (e.g. a child encoding that contains the terminator), never as the verdict",
+        design="§3 C01"),
+    "C02": dict(
+        technique="bounded-exhaustive enumeration of typed construct terms x all byte strings over a 6-symbol alphabet up to length L plus the complete 1-mutation neighbourhood of canonical encodings; idempotence oracle on the real code; gallery formats on sample files",
+        text="For every strict-typed term (tiers T1-T4, T5 thorough) and every byte string over {00,01,02,7f,80,ff} up to length 4/4/3 "
+             "(6/5/4 thorough), and every single-bit flip, insertion, deletion and truncation of every canonical encoding: if parse "
+             "accepts x then build(parse(x)) must succeed, parse of the rebuilt bytes must equal the first value and building again must "
+             "reproduce the same bytes. The gallery formats run on their sample files, every truncation point explored and (for "
+             "non-seeking formats) byte replacements in the header.",
+        note="the strict typing rules of DESIGN 2.1 define which compositions are in the domain (region-deriving wrappers take "
+             "region-filling children, no include=True/require=False terminators, no nullable child under explicit padding, Optional only "
+             "over children that do not accept None); RawCopy offsets are not compared across re-encoding",
+        design="§3 C02"),
 }
 
 PENDING_REASON = "check not built yet in this round (see DESIGN.md §7 build order); it will be decided by the same bounded-exhaustive engine"
